@@ -72,6 +72,20 @@ def special_models():
                                                        Mx([(Sx('f'), ('s', 'float', '1.5')), (Sx('u'), Ix('1')),
                                                            (Sx('d'), ('s', 'timestamp', '2001-01-01')), (Sx('o'), ('s', 'timestamp', '2001-01-01'))])]}],
                               'root': ('cls', 'K')}))
+    # nested sharing at differently typed places: base: &x {name: foo} / first: &y {inner: *x} / second: *y
+    na = {'name': 'Na', 'params': [('name', 'str')]}
+    nb = {'name': 'Nb', 'params': [('name', 'path')]}
+    ne = {'name': 'Ne', 'params': [('name', ('cls', 'E'))]}
+    for other in ('Nb', 'Ne'):
+        word = 'red' if other == 'Ne' else 'foo'
+        inner = Mx([(Sx('name'), Sx(word))])
+        out.append(('nested-sharing', {'classes': B + [na, nb, ne, {'name': 'F', 'params': [('inner', ('cls', 'Na'))]},
+                                                       {'name': 'G', 'params': [('inner', ('cls', other))]},
+                                                       {'name': 'K', 'params': [('base', ('cls', 'Na')), ('first', ('cls', 'F')),
+                                                                                ('second', ('cls', 'G'))],
+                                                        'docs': [Mx([(Sx('base'), inner), (Sx('first'), Mx([(Sx('inner'), inner)])),
+                                                                     (Sx('second'), Mx([(Sx('inner'), inner)]))])]}],
+                                       'root': ('cls', 'K')}))
     # seasoned classes whose savorize is not idempotent, inside collections
     out.append(('seasoned', {'classes': B + [{'name': 'K', 'params': [('v', 'int'), ('w', 'str', 'dw')],
                                              'hooks': {'savorize': [('scalar_to_attr', 'v')]},
@@ -198,8 +212,11 @@ def build_shared(tree, groups):
     root = to_node(tree)
     done = []
     for g in groups:
-        # skip groups lying inside a position that was already replaced by another group's representative
-        if any(not disjoint(p, q) and len(q) < len(p) for p in g for q in done):
+        # paths lying inside a position that was already replaced by another group's representative are shared through
+        # that representative anyway; share what is left of the group (this gives NESTED sharing: an anchored collection
+        # that contains an alias and is aliased again itself)
+        g = [p for p in g if not any(not disjoint(p, q) and len(q) < len(p) for q in done)]
+        if len(g) < 2:
             continue
         rep = node_at(root, g[0])
         for p in g[1:]:
